@@ -451,6 +451,9 @@ class Interp:
         if isinstance(f, types.FunctionType) and getattr(f, '__wrapped__', None) is not None and is_repo_func(f.__wrapped__):
             # functools.lru_cache & co. are C wrappers; python-level wrappers from outside the repo: run natively
             pass
+        if isinstance(getattr(f, '__self__', None), BaseException) or \
+                (isinstance(getattr(f, '__objclass__', None), type) and issubclass(f.__objclass__, BaseException)):
+            args = [self.msg_arg(a) for a in args]        # exception message text is dropped (DESIGN 2.6)
         direct = any(is_sym(a) or isinstance(a, SymObject) for a in args) or \
             any(is_sym(a) or isinstance(a, SymObject) for a in kwargs.values())
         if direct and getattr(f, '__module__', '') not in ('inspect', 'functools'):
